@@ -186,6 +186,16 @@ func FamilyShape(thorough bool, seed int64) []*Conv {
 		out = append(out, shapeConv("shape", ns, nextFormat(), nil, nil))
 		out = append(out, shapeConv("shape", ctorByName("struct").F(g, ns), nextFormat(), nil, nil))
 	}
+	// self-referencing and mutually recursive named types that are not structs
+	for _, rc := range []struct{ name, decl, src, tgt string }{
+		{"rec_slice", "type PFXRL []PFXRL\ntype PFXRM []PFXRM", "PFXRL", "PFXRM"},
+		{"rec_map", "type PFXRMA map[string]PFXRMA\ntype PFXRMB map[string]PFXRMB", "PFXRMA", "PFXRMB"},
+		{"rec_ptr", "type PFXRP *PFXRP\ntype PFXRQ *PFXRQ", "PFXRP", "PFXRQ"},
+		{"rec_mutual", "type PFXXA []PFXXB\ntype PFXXB map[string]PFXXA\ntype PFXYA []PFXYB\ntype PFXYB map[string]PFXYA", "PFXXA", "PFXYA"},
+		{"rec_in_struct", "type PFXRL2 []PFXRL2\ntype PFXRM2 []PFXRM2\ntype PFXRS struct {\n\tKids PFXRL2\n\tN int\n}\ntype PFXRT struct {\n\tKids PFXRM2\n\tN int\n}", "PFXRS", "PFXRT"},
+	} {
+		out = append(out, shapeConv("shape", shape{Src: rc.src, Tgt: rc.tgt, Name: rc.name, Decls: []string{rc.decl}}, nextFormat(), nil, nil))
+	}
 	out = append(out, shapeConv("shape", shape{Src: "map[PFXPK]int", Tgt: "map[PFXPK]int", Name: "mapstructptrkey", Decls: []string{"type PFXPK struct {\n\tP *int\n\tN string\n}"}}, nextFormat(), nil, nil))
 	if thorough {
 		rng := rand.New(rand.NewSource(seed))
